@@ -175,6 +175,7 @@ def case_bytes(case):
     if case.get('pool'):
         for i, it in enumerate(POOL_WARM[case['pool']]): top['poolwarm.%d' % i] = enc_req(item_fields(it))
     if case.get('dump'): top['dump'] = 1
+    if case.get('st'): top['st'] = 1
     if case.get('pool'):
         for name, text in POOLS[case['pool']].items(): top[name] = text
     for t, items in enumerate(case['threads']):
@@ -216,7 +217,8 @@ def parse_tsan(stderr):
         for s in acc[:2]:
             xs = [f for f in s if is_xerces_frame(f)]
             if xs: tops.append(xs[0])
-        reps.append({'kind': kind, 'text': ch.strip()[:6000], 'stacks': acc[:2], 'heads': heads[:2], 'loc': loc[0] if loc else [], 'tops': tops, 'xerces': xer})
+        unsym = bool(acc) and not any('/' in f for st_ in acc[:2] for f in st_)      # symbolizer failed (overloaded machine): stacks unusable
+        reps.append({'kind': kind, 'text': ch.strip()[:6000], 'stacks': acc[:2], 'heads': heads[:2], 'unsym': unsym, 'loc': loc[0] if loc else [], 'tops': tops, 'xerces': xer})
     return reps
 
 def classify_report(rep):
@@ -270,30 +272,34 @@ def run_once(case, halt=True):
     problems = []
     if flavour == 'tsan':
         for rep in parse_tsan(err):
+            if rep['unsym']:
+                res['unsym'] = res.get('unsym', 0) + 1; continue
             if not rep['xerces']:
                 res['ignored'] += 1; continue
             kid = classify_report(rep)
             if kid: res['known'].append(kid); continue
             problems.append('ThreadSanitizer: %s\n%s' % (rep['kind'], rep['text']))
     rc = p.returncode
-    if res['known'] and problems:
-        # a known race fired in this (not warmed-up) run: further reports / effects in the same run may be consequences of it
-        # (e.g. reads of the token published through the racy pointer); the warmed-up cases search behind the finding
-        res['shadowed'] = len(problems); res['shadowed_text'] = [re.sub(r'\s+', ' ', x)[:300] for x in problems[:3]]; problems = []
-        res['status'] = 'ok'; return res
     if summary is not None and not summary['digests_equal']:
         problems.append('per-thread results differ from the single-threaded re-run: ' + summary.get('mismatch', ''))
     if summary is None:
         # no summary: the process died before finishing.  A halt on a known / ignored report is not a problem of its own.
-        if not (flavour == 'tsan' and rc == 66 and (res['known'] or res['ignored']) and not problems):
+        if not (flavour == 'tsan' and rc == 66 and (res['known'] or res['ignored'] or res.get('unsym')) and not problems):
             if not problems or rc != 66:
                 problems.append('harness ended without a summary rc=%s\n%s' % (rc, err[-4000:]))
     elif rc not in (0, 3, 66):
         problems.append('abnormal exit rc=%s\n%s' % (rc, err[-4000:]))
-    elif rc == 66 and flavour == 'tsan' and not (res['known'] or res['ignored'] or problems):
+    elif rc == 66 and flavour == 'tsan' and not (res['known'] or res['ignored'] or res.get('unsym') or problems):
         problems.append('ThreadSanitizer exit code without a parsable report\n' + err[-4000:])
+    if res['known'] and problems:
+        # a known race fired in this (not warmed-up) run: further reports / effects in the same run may be consequences of it
+        # (e.g. reads of the token published through the racy pointer); the warmed-up cases search behind the finding
+        res['shadowed'] = len(problems); res['shadowed_text'] = [re.sub(r'\s+', ' ', x)[:300] for x in problems[:3]]; problems = []
     if problems:
         res['status'] = 'fail'; res['detail'] = '\n\n'.join(problems)[:12000]
+        res['crash'] = summary is None or rc not in (0, 3, 66)
+    elif res.get('unsym'):
+        res['status'] = 'unsym'; res['detail'] = 'ThreadSanitizer report(s) without symbolized stacks'
     return res
 
 def run_case(case, attempts=1):
@@ -302,6 +308,11 @@ def run_case(case, attempts=1):
     last = None
     for a in range(attempts):
         r = run_once(case, halt)
+        for _ in range(2):
+            if r['status'] != 'unsym': break
+            r = run_once(case, halt)          # the report could not be classified: run again
+        if r['status'] == 'unsym':
+            r['status'] = 'inconclusive'; return r
         if r['status'] == 'slow':
             r['status'] = 'inconclusive'; return r
         if r['status'] == 'hang':
@@ -315,6 +326,12 @@ def run_case(case, attempts=1):
                 r['status'] = 'inconclusive'
             return r
         last = r
+        if r['status'] == 'fail' and r.get('crash') and not case.get('st'):
+            # control: the same lists executed sequentially on one thread.  A crash that also happens there is a plain defect of a
+            # work item (another property's business), not a concurrency failure: dropped and counted.
+            c = run_once(dict(case, st=1), halt)
+            if c['status'] == 'fail' and c.get('crash'):
+                r['status'] = 'st-defect'; return r
         if r['status'] == 'fail': return r
     return last
 
@@ -433,6 +450,8 @@ _SHARED_TOKEN = re.compile(r'\\[pPwWdDsSiIcC]')
 def regex_item(draw):
     pat = draw(pattern()); opt = draw(st.sampled_from(['', '', 'X', 'i', 'iX']))
     it = {'k': 'regex', 'pat': pat, 'opt': opt, 'inputs': draw(st.lists(st.sampled_from(TEXTS), min_size=1, max_size=5))}
+    if '-[' in pat and 'X' not in opt:
+        opt = opt + 'X'; it['opt'] = opt      # class subtraction is schema-mode syntax (outside it: single-threaded crash, see report)
     if 'i' in opt and 'C17-rangetoken-casei-cache' in ACTIVE and _SHARED_TOKEN.search(pat):
         # excluded by construction (known finding): case-insensitive matching on process-wide category tokens
         it['opt'] = opt.replace('i', ''); it['excluded'] = 'C17-rangetoken-casei-cache'
@@ -519,6 +538,12 @@ def worker(ctx):
             # the input class of the finding (>=2 threads first-using the racy facility) was present and stepped over by the warm-up
             if r['summary'] and any(r['summary']['facilities'].get(f, 0) >= 2 for f in KNOWN[kid]['facs']):
                 st_.excluded_known[kid] += 1
+        if r['status'] == 'st-defect':
+            st_.extra['single_threaded_defects'] = st_.extra.get('single_threaded_defects', 0) + 1
+            st_.extra.setdefault('single_threaded_defect_samples', [])
+            if len(st_.extra['single_threaded_defect_samples']) < 3:
+                st_.extra['single_threaded_defect_samples'].append(re.sub(r'\s+', ' ', r['detail'])[:600])
+            return
         if r['status'] == 'inconclusive':
             st_.inconclusive += 1; return
         if r['status'] == 'fail' and r['detail'].startswith('case hangs 3/3'):
